@@ -1000,7 +1000,7 @@ fn gen_rand(out: &mut impl Write, tier: &str, rng: &mut Rng) {
         for _ in 0..stem_len {
             stem.push_str(pk(rng, &atoms));
         }
-        let mut mk_start = |rng: &mut Rng| {
+        let mk_start = |rng: &mut Rng| {
             let mut s = if rng.chance(2, 3) { stem.clone() } else { String::new() };
             let extra = if s.is_empty() { 1 + rng.below(3) } else { rng.below(3) };
             for _ in 0..extra {
